@@ -213,6 +213,7 @@ Proof.
   - destruct (coll_id s coll); [|exact Hs]. destruct (filter _ _); [exact Hs|]. destruct Hs; constructor; assumption.
   - pose proof (expire_colls_tables x (map fst (s_colls s)) s [] (fun c H => H) Hs) as H.
     destruct (expire_colls s x (map fst (s_colls s)) []) as [s' evs]. exact H.
+  - destruct (coll_id s coll); exact Hs.
   - destruct Hs; constructor; assumption.
 Qed.
 
